@@ -94,6 +94,48 @@ func (f *FuncInfo) Graph() *Graph {
 	return f.g
 }
 
+// flowGraph is the graph the dataflow runs on: in inline mode additionally with
+// compound bool returns decomposed into tests (rules that read the return
+// expressions themselves use Graph()).
+func (f *FuncInfo) flowGraph() *Graph {
+	if !f.inlineOn() {
+		return f.Graph()
+	}
+	if f.gis == nil {
+		g := cloneGraph(f.Graph())
+		splitBoolReturns(g, f)
+		f.gis = g
+	}
+	return f.gis
+}
+
+func cloneGraph(g *Graph) *Graph {
+	out := &Graph{F: g.F, CFG: g.CFG, byAst: map[ast.Node]*GNode{}, caseOf: g.caseOf, AssignIdents: g.AssignIdents}
+	m := map[*GNode]*GNode{}
+	for _, n := range g.Nodes {
+		cp := &GNode{ID: n.ID, Ast: n.Ast, Kind: n.Kind, Block: n.Block, Defer: n.Defer, Go: n.Go}
+		m[n] = cp
+		out.Nodes = append(out.Nodes, cp)
+	}
+	for k, n := range g.byAst {
+		if cp := m[n]; cp != nil {
+			out.byAst[k] = cp
+		}
+	}
+	for _, n := range g.Nodes {
+		for _, e := range n.Succ {
+			if m[e.To] == nil {
+				continue
+			}
+			ne := &GEdge{From: m[n], To: m[e.To], Cond: e.Cond, Tag: e.Tag, Val: e.Val, Kind: e.Kind, LoopStmt: e.LoopStmt}
+			m[n].Succ = append(m[n].Succ, ne)
+			m[e.To].Pred = append(m[e.To].Pred, ne)
+		}
+	}
+	out.Entry = m[g.Entry]
+	return out
+}
+
 func buildGraph(f *FuncInfo) *Graph {
 	info := f.Info()
 	c := cfg.New(f.Body(), mayReturn(info))
